@@ -533,3 +533,65 @@ Proof.
   destruct (l_alignment r) as [ar|]; cbn [opt_rel opt_eqb] in *; [|contradiction].
   apply alignment_eqb_iff. exact Qa.
 Qed.
+
+(* ---- WebVTT and fit_to_screen: the right edge of the cue box ------------------------------------------------- *)
+(* a percentage layout with origin in the safe area, fit on: position + size = x + fitted width - right padding <= 90 - right padding *)
+Theorem vtt_fit_right_edge : forall c l org, layout_truthy l = true -> (l_webvtt l = None \/ l_webvtt l = Some []) ->
+  all_pct l = true -> w_fit c = true -> l_origin l = Some org -> in_safe_area org = true ->
+  exists s ps ss, vtt_convert_positioning c (Some l) = Ok (VSet s)
+    /\ vs_position s = Some ps /\ vs_size s = Some ss /\ s_unit ps = PCT /\ s_unit ss = PCT
+    /\ (s_val ps + s_val ss <= 90 - pad_of pd_end l)%Q.
+Proof.
+  intros c l org T W P F Ho Hs.
+  destruct (vtt_convert_relative_fit c l T W P F) as (l2 & H2 & P2 & Hc). rewrite Hc.
+  set (l1 := mkLayout (l_origin l) (l_extent l) (l_padding l) (l_alignment l) (if w_rel c then None else l_webvtt l)) in *.
+  assert (P1 : all_pct l1 = true) by (destruct l; exact P).
+  assert (Ho1 : l_origin l1 = Some org) by exact Ho.
+  destruct (fit_safe l1 org Ho1 Hs (all_pct_extent _ P1)) as (e' & Hf & U1 & U2 & R1 & _).
+  rewrite Hf in H2. inversion H2; subst l2. clear H2.
+  set (l2 := mkLayout (Some org) (Some e') (l_padding l1) (l_alignment l1) None) in *.
+  destruct (vtt_arith_exact l2 org P2 eq_refl) as (pos & line & wd & Ha & (ps & -> & Up & Vp) & _ & Hw).
+  cbn [l_extent l2] in Hw. destruct Hw as (ss & -> & Us & Vs).
+  exists (mkVs (vtt_align (l_alignment l2)) (Some ps) line (Some ss)), ps, ss.
+  split; [exact Ha|]. repeat split; try assumption.
+  rewrite Vp, Vs. unfold pad_of. cbn [l_padding l2 l1 st_h]. destruct (l_padding l); lra.
+Qed.
+
+(* ---- cue splitting on arbitrary node lists: BREAK and STYLE nodes between (and around) the text nodes ----------- *)
+Definition text_layouts (nodes : list nnode) : list layout :=
+  flat_map (fun n => if n_kind n =? 1 then match n_layout n with Some l => [l] | None => [] end else []) nodes.
+
+Definition texts_have_layouts (nodes : list nnode) : Prop :=
+  forall n, In n nodes -> n_kind n = 1 -> exists l, n_layout n = Some l /\ layout_truthy l = true.
+
+Lemma vtt_groups_aux_general : forall nodes a, layout_truthy a = true -> texts_have_layouts nodes ->
+  vtt_groups_aux nodes true (Some a) = map Some (runs_last (a :: text_layouts nodes)).
+Proof.
+  induction nodes as [|n t IH]; intros a Ta H.
+  - reflexivity.
+  - assert (Ht : texts_have_layouts t) by (intros x Hx; apply H; right; exact Hx).
+    cbn [vtt_groups_aux]. unfold text_layouts. cbn [flat_map]. fold (text_layouts t).
+    destruct (n_kind n =? 1) eqn:K.
+    + destruct (H n (or_introl eq_refl) ltac:(lia)) as (b & Eb & Tb). rewrite Eb.
+      cbn [opt_layout_truthy opt_layout_eqb andb app]. rewrite Ta. cbn [andb].
+      rewrite (IH b Tb Ht).
+      change (runs_last (a :: b :: text_layouts t)) with (if layout_eqb b a then runs_last (b :: text_layouts t) else a :: runs_last (b :: text_layouts t)).
+      destruct (layout_eqb b a); reflexivity.
+    + cbn [app]. destruct (n_kind n =? 3); [apply IH; assumption|]. destruct (n_kind n =? 2); apply IH; assumption.
+Qed.
+
+(* a caption with at least one text node, every text node carrying a layout, any BREAK / STYLE nodes anywhere:
+   one cue per maximal run of equal text-node layouts *)
+Theorem vtt_split_by_layout_general : forall nodes, texts_have_layouts nodes -> text_layouts nodes <> [] ->
+  vtt_groups nodes = map Some (runs_last (text_layouts nodes)).
+Proof.
+  intros nodes. unfold vtt_groups. generalize false.
+  induction nodes as [|n t IH]; intros has H Hn; [contradiction|].
+  assert (Ht : texts_have_layouts t) by (intros x Hx; apply H; right; exact Hx).
+  cbn [vtt_groups_aux]. unfold text_layouts in *. cbn [flat_map] in *. fold (text_layouts t) in *.
+  destruct (n_kind n =? 1) eqn:K.
+  - destruct (H n (or_introl eq_refl) ltac:(lia)) as (b & Eb & Tb). rewrite Eb in *.
+    cbn [opt_layout_truthy andb app]. rewrite andb_false_r. cbn [andb].
+    apply vtt_groups_aux_general; assumption.
+  - cbn [app] in *. destruct (n_kind n =? 3); [apply IH; assumption|]. destruct (n_kind n =? 2); apply IH; assumption.
+Qed.
